@@ -6,7 +6,7 @@ EXTENDS Token, Json, SequencesExt
 VARIABLE st
 Auths == {{p} : p \in Accts} \cup {{}}
 Acts(s) ==
-    {[name |-> n, minter |-> "bob", auth |-> au] : n \in {"AddMinter", "RemoveMinter"}, au \in Auths}
+    {[name |-> n, minter |-> m, auth |-> au] : n \in {"AddMinter", "RemoveMinter"}, m \in {"bob", "its0"}, au \in Auths}
     \cup {[name |-> "Mint", to |-> "bob", amt |-> 1, auth |-> au] : au \in Auths}
     \cup {[name |-> "AddMinter", minter |-> "carol", auth |-> {s.owner}]}
     \cup {[name |-> "TransferOwnership", new |-> n, auth |-> au] : n \in {"its0", "carol", "bob"}, au \in Auths}
